@@ -24,6 +24,7 @@ def run(chk):
              "OutRec::path built only in CheckBounds; polytree children created from outrec->path")
     chk.rule("GUARD", "BuildPath64/D: degenerate-ring guard table; copy loop appends only vertices different from the last appended")
     chk.rule("T.removal", "CleanCollinear removes a vertex iff collinear and (duplicate of a neighbour or !PreserveCollinear or reversal)")
+    chk.rule("REMOVAL.restart", "CleanCollinear restarts its lap (startOp = op2) on every path after a removal")
     chk.rule("SIBLING.64-D", "BuildPathD / BuildPathsD / BuildTreeD are their 64-bit siblings modulo renames and de-scaling")
     for cfg in cfgs:
         db = AstDB(cfg)
@@ -31,6 +32,7 @@ def run(chk):
         e10.rule_plumb(db, chk, cfg)
         e10.rule_guard(db, chk, cfg)
         e3.clean_collinear_condition(db, chk, cfg)
+        e10.rule_removal_restart(db, chk, cfg)
         e6.rule_64_d(db, chk, cfg, only=("BuildPath64", "Clipper64::BuildPaths64", "Clipper64::BuildTree64"))
     n = len(cfgs)
     chk.floor("PRECEDE", 7 * n)
